@@ -61,6 +61,21 @@ NatMulH(a, b, i, acc) ==
   ELSE NatMulH(a, b, i + 1, NatAdd(IF acc = <<>> THEN <<>> ELSE Append(acc, 0), NatMulDigit(a, b[i])))
 NatMul(a, b) == IF a = <<>> \/ b = <<>> THEN <<>> ELSE NatMulH(a, b, 1, <<>>)
 
+\* a second, independent definition of the product: convolution and one carry pass (little-endian inside).
+\* MC_Decimal checks NatMul = NatMulConv on a grid, so that the oracle's multiplication is cross-checked.
+RECURSIVE ConvSum(_, _, _, _)
+ConvSum(a, b, k, i) ==      \* sum of a[i] * b[k + 1 - i] over i..min(Len(a), k) (1-based, little-endian; k + 1 - i <= Len(b) by the start index)
+  IF i > Len(a) \/ i > k THEN 0 ELSE a[i] * b[k + 1 - i] + ConvSum(a, b, k, i + 1)
+RECURSIVE CarryPass(_, _, _)
+CarryPass(c, i, carry) ==
+  IF i > Len(c) THEN (IF carry = 0 THEN <<>> ELSE CarryPass(<<carry>>, 1, 0))
+  ELSE LET x == c[i] + carry IN <<x % 10>> \o CarryPass(c, i + 1, x \div 10)
+NatMulConv(a, b) ==
+  IF a = <<>> \/ b = <<>> THEN <<>>
+  ELSE LET ra == Rev(a)  rb == Rev(b)
+           conv == [k \in 1..(Len(a) + Len(b) - 1) |-> ConvSum(ra, rb, k, IF k > Len(b) THEN k + 1 - Len(b) ELSE 1)]
+       IN StripLead(Rev(CarryPass(conv, 1, 0)))
+
 NatShift(a, n) == IF a = <<>> THEN <<>> ELSE a \o Zeros(n)     \* a * 10^n
 
 \* long division: NatDivMod(a, b) = <<quotient, remainder>>, b # 0
